@@ -312,6 +312,7 @@ type H struct {
 	devPos      map[string]int
 	policy      map[string][]codes.Code // upcoming answers per target
 	poison      map[string]poisoned     // a value the device of a target refuses every time
+	focusCrash  map[string]int          // target -> number of its proposal invocations cut so far (scripted crash histories)
 	txR         *txctl.Reconciler
 	propR       *propctl.Reconciler
 	cfgR        *cfgctl.Reconciler
@@ -355,7 +356,7 @@ func hx(s string) string {
 }
 
 func newH(seed int64, hid string, out *bufio.Writer, ntargets int, persistent map[string]bool) *H {
-	h := &H{devs: map[string]*fakes.Device{}, devPos: map[string]int{}, policy: map[string][]codes.Code{}, poison: map[string]poisoned{},
+	h := &H{devs: map[string]*fakes.Device{}, devPos: map[string]int{}, policy: map[string][]codes.Code{}, poison: map[string]poisoned{}, focusCrash: map[string]int{},
 		crash: &crashCtl{budget: -1, race: -1, readFault: -1}, r: rand.New(rand.NewSource(seed)), out: out, hid: hid, knownC: map[string]bool{}, lastVerdict: -1,
 		raw: map[configapi.ConfigurationID]_map.Map[string, *configapi.PathValue]{}}
 	h.rs = h.r
@@ -785,6 +786,12 @@ func (h *H) allIDs() []recID {
 
 // reconcile runs one reconcile invocation, stopping it after `budget` store/device write calls (-1: no limit)
 func (h *H) reconcile(id recID, budget int) {
+	// crash histories of the scripted refusal: the invocations of the proposals of the refusing target are cut after their
+	// 2nd, 1st, 3rd, 2nd ... call for a while, so that every cut point of the refusal branch is met
+	if n, ok := h.focusCrash[id.a]; ok && id.kind == "prop" && budget < 0 && h.nesting == 0 && n < 15 {
+		budget = []int{2, 1, 3}[n%3]
+		h.focusCrash[id.a] = n + 1
+	}
 	nested := h.nesting > 0
 	var outer crashSnap
 	if nested {
@@ -1644,6 +1651,9 @@ func runScenario(seed int64, n int, out *bufio.Writer, kind string, suffix strin
 			codes.Unimplemented, codes.OutOfRange}
 		bad := env.Pick(r, h.targets)
 		h.poison[bad] = poisoned{val: "vPOISON", code: env.Pick(r, refusals)}
+		if kind == "crash" {
+			h.focusCrash[bad] = 0
+		}
 		h.emit("(devpolicy)", fmt.Sprintf("%s:refusal-of-a-value", tnum(bad)))
 		ops := []op{}
 		for _, t := range h.targets {
